@@ -58,8 +58,11 @@ namespace vt
 
   bool operator== (const elem&, const elem&);
   bool operator<  (const elem&, const elem&);
+#ifndef VT_SWAP_NOEXCEPT
+#define VT_SWAP_NOEXCEPT VT_MOVE_NOEXCEPT
+#endif
 #ifndef VT_TRIVIAL
-  void swap (elem&, elem&) noexcept (VT_MOVE_NOEXCEPT);
+  void swap (elem&, elem&) noexcept (VT_SWAP_NOEXCEPT);     // found by ADL; may throw although the moves do not (flavour tswap)
 #endif
 
 #ifndef VT_SIZE_T
